@@ -39,11 +39,26 @@ def load_known():
     return out
 
 
+def _star_match(name, pattern):
+    """`*` is the only wildcard (obligation names contain brackets)"""
+    parts = pattern.split('*')
+    if not name.startswith(parts[0]):
+        return False
+    pos = len(parts[0])
+    for seg in parts[1:-1]:
+        i = name.find(seg, pos)
+        if i < 0:
+            return False
+        pos = i + len(seg)
+    last = parts[-1]
+    return len(parts) == 1 and name == pattern or (len(parts) > 1 and name.endswith(last) and len(name) - len(last) >= pos)
+
+
 def match_known(known, prop, ob):
     for k in known:
         if k['property'] != prop:
             continue
-        if fnmatch.fnmatchcase(ob['name'], k['obligation']):
+        if _star_match(ob['name'], k['obligation']):
             return k
     return None
 
